@@ -129,9 +129,10 @@ def check_guard_and_store(ctx, fn, qual):
         raise Unknown(qual, "no path calls do_codegen/do_compile", fn)
 
 
-@rule("C10.guard-and-store", props=["C10"], min_instances=3, mutants=[
-    ("store under sorted key", ("operator_dict", "            keys_out, func = do_codegen(self.codegen, mv)\n            self.algebra.numspace[func.__name__] = self.algebra.wrapper(func) if self.algebra.wrapper else func\n            self.operator_dict[keys_in] = (keys_out, func)",
-                                "            keys_out, func = do_codegen(self.codegen, mv)\n            self.algebra.numspace[func.__name__] = self.algebra.wrapper(func) if self.algebra.wrapper else func\n            self.operator_dict[tuple(sorted(keys_in))] = (keys_out, func)")),
+@rule("C10.guard-and-store", props=["C10"], min_instances=9, mutants=[
+    ("a None entry is taken for a miss and the entry is never stored", ("operator_dict", "            self.operator_dict[keys_in] = (keys_out, func)\n        return self.operator_dict[keys_in]\n\n    def __contains__", "            return (keys_out, func)\n        return self.operator_dict[keys_in]\n\n    def __contains__")),
+    ("store under sorted key", ("operator_dict", "            mv = self.algebra.multivector(name='a', keys=keys_in, symbolcls=self.codegen_symbolcls)\n            keys_out, func = do_codegen(self.codegen, mv)\n            # The generated name only encodes which blades are present, not their order: make it unique.\n            func.__name__ = f'{func.__name__}_{id(func)}'\n            self.algebra.numspace[func.__name__] = self.algebra.wrapper(func) if self.algebra.wrapper else func\n            self.operator_dict[keys_in] = (keys_out, func)",
+                                "            mv = self.algebra.multivector(name='a', keys=keys_in, symbolcls=self.codegen_symbolcls)\n            keys_out, func = do_codegen(self.codegen, mv)\n            # The generated name only encodes which blades are present, not their order: make it unique.\n            func.__name__ = f'{func.__name__}_{id(func)}'\n            self.algebra.numspace[func.__name__] = self.algebra.wrapper(func) if self.algebra.wrapper else func\n            self.operator_dict[tuple(sorted(keys_in))] = (keys_out, func)")),
     ("miss test always true for Registry", ("operator_dict", "class Registry(OperatorDict):\n    def __getitem__(self, keys_in: Tuple[Tuple[int]]):\n        if keys_in not in self.operator_dict:",
                                             "class Registry(OperatorDict):\n    def __getitem__(self, keys_in: Tuple[Tuple[int]]):\n        if True:")),
 ], rewrites=[
@@ -139,9 +140,48 @@ def check_guard_and_store(ctx, fn, qual):
                                   "    def __getitem__(self, keys_in: Tuple[Tuple[int]]):\n        if not (keys_in in self.operator_dict):\n            mv = self.algebra.multivector(name='a', keys=keys_in, symbolcls=self.codegen_symbolcls)")),
 ])
 def guard_and_store(ctx):
-    """Generation is dominated by a miss test on the key and post-dominated by a store under that key (TS)."""
+    """Each cache look-up (__getitem__ of the three dictionaries) is interpreted from source with stubbed generators,
+    in sequence on one object: a miss generates exactly once and stores the entry under exactly the looked-up key; a
+    second look-up with the same key, and a look-up of a key that was already in the cache, generate nothing and
+    return the stored entry; another key generates once more and evicts nothing.  (Every path of these functions is
+    exercised by the four look-ups; the shape of the miss test - `in`, try/except KeyError, `.get` - does not matter.)"""
+    from .c08 import run_getitem_sequence, GETITEMS as G8
+    from ..astx import NoValue
     for q in GETITEMS:
-        check_guard_and_store(ctx, inline_self_calls(ctx.repo, q.rsplit(".", 1)[0], ctx.func(q)), q)
+        fn = ctx.func(q)
+        try:
+            log = run_getitem_sequence(ctx.repo, q)
+        except NoValue as exc:
+            raise Unknown(q, str(exc), fn)
+        if log.get("raised"):
+            ctx.violation(f"{q}#guard", f"the look-up sequence raises {log['raised']}", fn)
+            continue
+        gens = log["generations"]          # number of generations after each of the four look-ups
+        # 1: miss
+        if gens[0] != 1:
+            ctx.violation(f"{q}#guard", f"the first look-up of a key generates code {gens[0]} times", fn)
+        elif not log["stored_under_key"]:
+            ctx.violation(f"{q}#store", f"after a miss the cache holds the keys {log['cache_keys_after_first']!r}, not the looked-up key "
+                                        f"{log['key']!r}: the next call with the same key pattern generates again", fn)
+        else:
+            ctx.ok(f"{q}#generate-path", fn, stored_under="the looked-up key")
+        # 2: hit after miss, 3: hit on a pre-populated cache
+        if gens[1] != gens[0]:
+            ctx.violation(f"{q}#guard", "a second look-up with the same key generates and compiles again: code generation is not "
+                                        "guarded by a cache-miss test on the key that is looked up", fn)
+        elif not log["second_is_entry"]:
+            ctx.violation(f"{q}#hit-path", "a look-up that hits does not return the stored cache entry of the key", fn)
+        elif log["prepopulated_generated"] or not log["prepopulated_is_entry"]:
+            ctx.violation(f"{q}#hit-path", "a key that is already in the cache is generated again / not answered with its stored entry", fn)
+        else:
+            ctx.ok(f"{q}#hit-path", fn)
+        # 4: another key
+        if gens[2] != gens[1] + 1 or not log["both_present"]:
+            ctx.violation(f"{q}#store", f"looking up a second key pattern gives {gens[2] - gens[1]} generation(s) and leaves the cache with "
+                                        f"{log['cache_size_after_other']} entries (expected one generation, two entries): entries overwrite or "
+                                        f"evict each other", fn)
+        else:
+            ctx.ok(f"{q}#other-key", fn)
 
 
 @fixture_for("C10.guard-and-store")
